@@ -77,16 +77,21 @@ ASSUMPTIONS = [
     "hostile peer are not injected (only responses are)",
 ]
 EXPLANATION = ("Theorems over ALL event sequences of the ledger machine (any mix of sync/async/nested requests, any "
-               "handler outcome, any number outstanding, hand-built responses): sequence numbers strictly increase; each "
-               "request is executed at most once and answered at most once with its own number; a response goes to the "
-               "waiter registered under its number and to nobody else, unmatched ones are dropped; the counting invariant "
-               "[in peer's inbox] + [being handled] + [answered] = 1 holds for every request sent and nobody dies "
-               "(exactly_one = the full statement: every outcome class incl. BaseExceptions, unencodable results, "
-               "unserializable exceptions; only the configured local propagation of SystemExit/KeyboardInterrupt is "
-               "excluded); a response the receiver cannot decode still reaches its waiter as an error "
-               "(undecodable_response_is_delivered, obligation decode_guarded; unguarded_decode_loses_response is the "
-               "counterexample for the code before the repair); at quiescence every request has been answered and "
-               "delivered exactly once; a failed send leaves no waiter behind.")
+               "handler outcome, any number outstanding, hand-built responses). The statement is the CONJUNCTION of "
+               "separate theorems, not one of them: sequence numbers strictly increase (seq_fresh, issue_allocates); each "
+               "request is executed at most once and answered at most once with its own number (at_most_once, "
+               "response_bears_own_seq); a response goes to the waiter registered under its number and to nobody else, "
+               "unmatched ones are dropped (routed, each_waiter_one_outcome); exactly_one = every reachable state is Good, "
+               "i.e. no side has left its serve loop AND the counting invariant [in peer's inbox] + [being handled] + "
+               "[answered] = 1 holds for every request sent (every outcome class incl. BaseExceptions, unencodable "
+               "results, unserializable exceptions; only the configured local propagation of SystemExit/"
+               "KeyboardInterrupt is excluded); a response the receiver cannot decode still reaches its waiter as an "
+               "error (undecodable_response_is_delivered, obligation_decode_guarded measured for MSG_REPLY and "
+               "MSG_EXCEPTION; unguarded_decode_loses_response is the counterexample for the code before the repair); at "
+               "quiescence every request has been answered and delivered exactly once (quiescent_all_answered); a failed "
+               "send leaves no waiter behind (send_failure_unregisters). A message whose brine.load itself fails at the "
+               "receiver (before its seq is known) is not an event of the machine: it is met by the correspondence "
+               "(deep-and-wide tuples at the default recursion limit), not by a theorem.")
 
 LIMIT = sys.get_int_max_str_digits() or 4300
 BIG = 10 ** (LIMIT + 10)
@@ -1126,10 +1131,14 @@ def run_case(prog):
 
 def correspondence(ctx):
     c = Corr()
-    c.rule = ("request streams of side A (sync, async, await, failed send, 4 kinds of undecodable arguments, 3 kinds of "
-              "hand-built responses) whose handler scripts nest sync/async callbacks up to depth 3 and end in one of 7 "
-              "outcomes (value, reference, exception, unencodable int / deep tuple, exception with unserializable int / "
-              "repr); boundary corpus (every outcome x {sync, async+await, callback, depth-3}) + seeded random streams. "
+    c.rule = ("request streams of side A (sync, async, timed, await, clock advance, failed send, 4 kinds of undecodable "
+              "arguments, 4 kinds of hand-built responses: duplicate, unmatched, stealing a waiter, undecodable) whose "
+              "handler scripts nest sync/async callbacks up to depth 3 and end in one of %d outcomes (value, value with a "
+              "boundary value as argument+result / as result only, reference, Exception plain / with a boundary value, "
+              "ExceptionGroup, a class the receiver cannot rebuild, five BaseException classes, unencodable int / deep "
+              "tuple, exception with unserializable int / repr); boundary corpus (every outcome x {sync, async+await, "
+              "callback, depth-3}, every value of the pool incl. %d deep-and-wide tuples run at the default recursion "
+              "limit, configured local propagation) + seeded random streams. " % (len(OUTS), len(DEEP_WIDE)) +
               "Compared: ledger (sender, type, seq of every frame, in order), executed requests, (seq, kind, payload) "
               "given to each requester, waiter tables, closed flags, empty inboxes/stacks, every event accepted by the "
               "model. Non-trivial = at least one request; distinct = distinct (action kinds, outcome set, depth, "
